@@ -801,6 +801,12 @@ def schema_bounds(prog, o):
     if idx[0] == "int" and ln[0] == "int" and idx[1] < ln[1]:
         return ("CONST-INDEX", "%d < %d" % (idx[1], ln[1]))
     facts = facts_at(prog, body, o.block)
+    from ..poly import poly as _poly, GT0 as _GT0, fact_nf as _fact_nf
+    d = _poly(ln) - _poly(idx)
+    if d.is_const() and d.const_value() >= 1:
+        return ("LEN-MINUS-K", "index is len - %d (the subtraction is its own obligation)" % d.const_value())
+    if _GT0(d) in {_fact_nf(f) for f in facts if f[0][0] == "cmp"}:
+        return ("GUARD-DOM", "dominating guard implies %s < %s" % (describe(idx, body), describe(ln, body)))
     # as_bytes()[lf - 1] with lf = find(..) payload, lf != 0
     if ln[0] == "call" and ln[1] == "[]::len" and ln[2][0][0] == "call" and ln[2][0][1] == "str::as_bytes":
         sx = ln[2][0][2][0]
